@@ -8,7 +8,13 @@
 //
 // Generated models (gen.go) may carry generated mix-ins whose fields are shadowed by fields of
 // the model (mixin.go), tag keys spelled with blanks / in another case, added fields declared
-// between old ones; every AutoMigrate call draws one of four call forms.
+// between old ones; every AutoMigrate call draws one of four call forms, and every call of a
+// history draws how it names the table: db.Table(t), a scope calling Table(t), a scope that
+// registers that scope (two and three levels), next to a do-nothing scope. One generated history in
+// four names its table through the handle's NamingStrategy instead (nothing per call), and two
+// thirds of those carry generated RELATIONS to declared types (keyed.go): many2many keyed by the
+// primary key or by a non-primary column with the whole index / unique grammar, belongs-to with a
+// new foreign key column - part of v1 or added in v2 to the populated table.
 //
 // One case in eight (grow.go) adds RELATIONS in v2 to populated tables, with the models passed in
 // random order / subsets / split calls and SQLite foreign key enforcement on for most of them, so
@@ -43,6 +49,16 @@
 //   - v{1,2}_constraint_of_shadowed_field: a CHECK written only on a shadowed mix-in field is
 //     enforced by the table (not on the unchanged tree: ParseCheckConstraints ranges over
 //     FieldsByDBName)
+//   - migrate_v{1,2}_error:join-table-takes-check-of-key-field: a many2many key field (primary key or
+//     foreignKey:F) that declares `check:` - the join table's field is built from the key field's tag, the
+//     check is compiled into CREATE TABLE <join> where its column does not exist ("no such column")
+//   - v{1,2}_join_table_unique_on_one_key:<cause> / migrate_v{1,2}_error:join-table-takes-index-of-key-field:<cause>:
+//     schema/utils.go removeSettingFromTag removes each of column/autoIncrement/index/unique/uniqueIndex
+//     once and only when the name is directly followed by `:`/`;`/`"`: with two index settings on the key
+//     field (`unique;uniqueIndex`, `index:a;index:b`) or a blank behind the name (`unique ;`, `index :a`,
+//     `uniqueIndex; `) one survives in the join table: UNIQUE on one join column (the second associated
+//     record of an owner is dropped silently) or CREATE INDEX with the name of the owner's index
+//     ("index ... already exists")
 //   - multi_migrate_v2_error:child-listed-before-new-owner: AutoMigrate(&Letter{}, &Office{}) where
 //     letters exists with rows, offices does not, and Office declares a has-many to Letter: under
 //     _foreign_keys=1 the call fails with "no such table: main.offices" (ReorderModels reads the
@@ -1045,9 +1061,13 @@ func runGenerated(c *core.Ctx) {
 	}
 	if len(m.rels) > 0 {
 		x.info["declared_types"] = m.targetTexts()
-		c.Inc("histories_with_generated_many2many")
-		c.Add("generated_many2many_relations", len(m.rels))
+		c.Inc("histories_with_generated_relations")
 		for _, rg := range m.rels {
+			if rg.bt {
+				c.Inc("generated_belongs_to_relations")
+			} else {
+				c.Inc("generated_many2many_relations")
+			}
 			if rg.nonPK {
 				c.Inc("many2many_keyed_by_non_primary_column")
 			}
@@ -1105,11 +1125,16 @@ var Engine = &core.Engine{
 		"9 of 16 cases: model types generated with reflect.StructOf (5 key shapes; 1..7 fields of 33 Go kinds incl. pointers, sql.Null*, a custom Scanner/Valuer, a json serializer field, embedded structs with prefix; tags column, default (literal, quoted, spaced, empty, null, function), not null, size, type, precision, comment, unique, check (named/unnamed), index (plain, named, sort, length, comment, unique, class, collate, expression, partial), uniqueIndex, composite indexes with priorities, permissions, autoCreate/UpdateTime); v2 = v1 + 0..4 fields + 0..3 index/unique/check tags on existing fields + composite indexes spanning old and new fields; " +
 		"1 of 3 generated models carries a generated MIX-IN (engine/c20/mixin.go): a struct type built with reflect.StructOf, embedded anonymously or through a field tagged `embedded` (no prefix), part of v1 or added in v2, declared at a random position (before or after the fields it collides with), with 0..2 columns of its own (whole tag grammar) and 0..2 fields whose column is ALSO declared by a field of the model itself (same Go name, or a name of its own with a column tag; the same or another Go type of the class; key fields too, with or without primaryKey) and which are therefore SHADOWED; a shadowed field carries tags its owner lacks: check (named/unnamed; satisfied by the data, or violated by every row of the workload), not null, default, unique, a named index, size, comment; 1 of 4 such models has a second mix-in that may also collide with the own columns of the first (equal depth: the mix-in declared first owns the column); demanded: columns, constraints and records are those of the OWNING fields - after v1 and after v2 a row that violates only a shadowed field's check is accepted (probe in a rolled-back transaction), rows, Create, round trip and old rows go through the owning fields, re-migration issues no DDL; " +
 		"1 of 2 generated models has its tag KEYS respelled the way gorm reads them (schema.ParseTagSetting trims and upper-cases keys): blanks in front of a key (i.e. after the `;` separator, or after the `,` of an index option), a blank between key and colon, upper / lower case, an empty piece at the end of the tag - e.g. `gorm:\"size:64; index\"`, `gorm:\"NOT NULL; uniqueIndex :ux_a, Priority:2;\"`; values are never touched; 1 of 2 models declares (some of) the fields added in v2 between the old ones; " +
-		"every AutoMigrate call of the single-table histories draws its form: db.Table(t).AutoMigrate(&T{}) (6 of 10), db.Table(t).Migrator().AutoMigrate(&T{}) (2), the model passed by value (1), tx := db.Table(t).Begin(); tx.AutoMigrate(&T{}); tx.Commit() (1); " +
+		"every AutoMigrate call of the single-table histories draws its form: h.AutoMigrate(&T{}) (6 of 10), h.Migrator().AutoMigrate(&T{}) (2), the model passed by value (1), tx := h.Begin(); tx.AutoMigrate(&T{}); tx.Commit() (1); " +
+		"and EVERY call of such a history (AutoMigrate, Create, First) draws how the handle h names the table: db.Table(t) (5 of 10), db.Scopes(tbl) with tbl = func(db){return db.Table(t)} (1), a scope that REGISTERS that scope db.Scopes(func(db){return db.Scopes(tbl)}) (2), three levels (1), the nested scope next to a do-nothing scope in either order (1) - the same request, on the first migration, the re-migrations and v2 alike; " +
+		"1 of 4 generated histories names the table through the handle instead (gorm.Config.NamingStrategy = the default strategy with the generated anonymous type's table; plain db.AutoMigrate / db.Create per call) and 2 of 3 of those carry 1..2 generated RELATIONS to declared types (engine/c20/keyed.go: Badge, Label `Code not null; uniqueIndex`, Topic `Slug size:24; unique`, Venue string key, Squad `Num NOT NULL;UNIQUEINDEX`), part of v1 (1 of 4) or added in v2 to the populated table: " +
+		"3 of 4 many2many, keyed on the model's side by its primary key (single, string, composite; foreignKey written or left out) or (2 of 3) by a NON-PRIMARY column foreignKey:F synthesised for it (int/uint/string; column, not null, size, comment; unique 1 of 4; 4 of 5 one tag of the whole index grammar: plain, named, sort, length, comment, unique, class, collate, expression, partial, uniqueIndex named or not; these index tags part of v1 or, 1 of 3, added in v2 with the relation; keys respelled like every other tag, 3 of 4 such models), joinForeignKey always given, on the other side by the primary key or references:Code/Slug/Num, joinReferences given or defaulted; " +
+		"1 of 4 belongs-to: a new pointer column (index tag 1 of 2) + relation with gorm's default names (Badge *Badge, BadgeID *uint) or foreignKey:HomeBadgeKey[;references:Code]; the declared types are passed in the same AutoMigrate call or left to its dependency resolution, exist since v1 (then with a raw row that must survive) or are new in v2; " +
+		"demanded of relations: after the migration that brings the relation the join table exists with the join columns gorm's own parse names and a foreign key per side, and holds rows (owner 1, record 1), (owner 1, record 2), (owner 2, record 1) inserted with raw SQL in a rolled-back transaction; a belongs-to has its foreign key in the model's table (pragma_foreign_key_list); rows of the other tables unchanged by every migration; a v2 record created with two new associated records per many2many (a nested record per belongs-to) is stored (raw join) and returned (Preload); an OLD row read through v2 takes Association().Append of a new record and of one shared with the new record, both owners keep theirs; re-migration issues no DDL on any table; " +
 		"1 of 8: static types with anonymous embedding (gorm.Model, soft delete); 1 of 8: a related family (belongs-to, has-many, many2many, self reference, has-one added in v2) migrated as a random permutation/subset through ReorderModels (demanded besides columns/indexes: the foreign keys of users, and those that live in other tables - pets and profs for the has-many/has-one of User, the join table user_langs); " +
 		"1 of 8: a family whose RELATIONS are added in v2 to tables that exist and hold rows (engine/c20/grow.go): v1 = books -> shelves plus a random subset of unrelated authors/publishers/tags tables with rows; v2 = one of three Book variants on table books (belongs-to only; has-many + many2many only; two belongs-to to one parent + has-many + many2many + unique index) with Author gaining a belongs-to to Publisher (dependency chain of depth 2) and a check, new tables reviews/book_tags; drawn per case: which referenced tables already exist, which models are passed and in which order (Book always; the others 2/3 each, otherwise reached as dependencies only; an unrelated model at times), one AutoMigrate call or the list split over two calls, db.AutoMigrate or db.Migrator().AutoMigrate, foreign key enforcement of the connections (_foreign_keys=1, 2 of 3), DisableForeignKeyConstraintWhenMigrating (1 of 8); demanded: no error, v1 cells unchanged, v1 objects kept, columns/indexes/foreign keys (pragma_foreign_key_list)/checks of every passed model and the tables its belongs-to/many2many point to exist, a v2 record with nested new associations round-trips (raw SQL and First+Preload), v2 again in another order issues no DDL; " +
 		"1 of 16: PARALLEL RELATIONS (engine/c20/multi.go, models engine/c20/multi): one owner (people) with several has-one/has-many relations to the SAME child (letters), so the child table carries one foreign key per relation, all to the same parent table; v1 = one of 5 owner/child pairs (no relation; one has-many; two has-many created with the table, either declaration order; the child belongs to the owner) plus an unrelated offices table at times, rows by raw SQL; v2 = one of 8 owners on the same tables whose relations include v1's (1..4 relations to letters: has-many and has-one mixed, new relations declared before or after the old ones, ON DELETE/ON UPDATE actions, a constraint with a name of its own, two more has-many to a table parcels that is new in v2; belongs-to and has-many in both directions between the two models over different columns or over the same column) and, 1 of 2, a second owner Office whose has-many to letters has the same relation NAME (Sent) as Person's, its table new or existing; drawn per case: argument order, one call or two (owners first, cut anywhere), db.AutoMigrate or db.Migrator().AutoMigrate, _foreign_keys=1 (2 of 3), DisableForeignKeyConstraintWhenMigrating (1 of 8); demanded: no error, v1 cells unchanged, every column/index, for EVERY relation of a passed owner its foreign key in the child table (pragma_foreign_key_list: column, parent table, ON DELETE, ON UPDATE) after v1 and after v2, under enforcement a dangling reference in each such column is refused, old rows read back through the v2 models, a v2 owner created with 1..2 children under every relation round-trips (raw SQL per foreign key column and First+Preload of every relation; a child with a nested belongs-to parent), v1 again / v2 again in another order issue no DDL; " +
-		"distinct = (key shape, set of v1 tag features, set of added features) resp. (family, argument order, additions) resp. (variant, enforcement, v1 tables, v2 argument order, call form) resp. (v1 owner, v2 owner, offices in v1, enforcement, v2 argument order, call form); non-trivial = v2 adds something and the whole history ran",
+		"distinct = (key shape, set of v1 tag features, set of added features incl. relation kind / key tags / target) resp. (family, argument order, additions) resp. (variant, enforcement, v1 tables, v2 argument order, call form) resp. (v1 owner, v2 owner, offices in v1, enforcement, v2 argument order, call form); non-trivial = v2 adds something and the whole history ran",
 	Assumptions: []string{
 		"values are non-zero, distinct per row and satisfy every generated CHECK; data that would make the database itself refuse the new constraint (duplicates under a new unique index, a new NOT NULL column without constant default, a non-constant default on ADD COLUMN, a unique constraint on an added column that has a constant default) is not generated",
 		"schema-changing statement = text starting with CREATE/ALTER/DROP or containing RENAME/__temp on the recording driver (the SQLite dialector rebuilds tables through <table>__temp)",
@@ -1121,8 +1146,10 @@ var Engine = &core.Engine{
 		"with DisableForeignKeyConstraintWhenMigrating no foreign key is demanded (nor its absence); IgnoreRelationshipsWhenMigrating is not generated",
 		"parallel-relations family: as in the growing family the foreign key of a has-one/has-many is known only to a call that has seen the owner, so the child (letters, parcels) is never passed in an earlier call than an owner and is never passed without the owner; foreign keys are compared by (column, parent table, ON DELETE, ON UPDATE), never by constraint name, and additional foreign keys on the same column are tolerated (v1's belongs-to constraint next to v2's has-many constraint over the same column: the statement does not say whether they are one constraint); every v2 relation repeats the tags of its v1 version; constraint:- , polymorphic relations, composite and non-primary references, and relations inside embedded structs are not generated; the owner tables gain only a plain column and an index in v2 (a constraint added to a parent table that is referenced by rows makes the external SQLite dialector's table rebuild fail under enforcement, see above); every reference in the raw rows points to an existing person",
 		"mix-ins: a column declared by several fields belongs to the field with the shortest path, the first one among equals (gorm's rule in schema.Parse, Go's rule for promoted fields); the harness computes the owner itself and sets / reads only owning fields; `uniqueIndex` and index tags with the default name are not generated on a shadowed field (gorm builds an index for every field, shadowed or not, on creation and on migration alike; the statement does not say whether an index written on a shadowed field belongs to the model - a NAMED plain index is generated there, nothing is demanded of it), and no uniqueness probe is made on a column whose shadowed field says `unique`; a mix-in is the same type in v1 and v2, collides only with fields that exist whenever it does, is not pointer-embedded and has no prefix when it collides; two mix-ins keep their order",
-		"only tag KEYS are respelled: values are literal to gorm (`size: 64`, `index: name`, `priority: 2`, `size:64 ;` are other values) and are never written with blanks",
+		"only tag KEYS are respelled: values are literal to gorm (`size: 64`, `index: name`, `priority: 2`, `size:64 ;` are other values) and are never written with blanks; a blank in front of a key is one or two spaces or (1 of 6) a tab",
 		"gorm.Config{PrepareStmt:true} is not generated: the external SQLite dialector's ColumnTypes takes the column list from `SELECT * FROM t LIMIT 1`, and database/sql + go-sqlite3 report for a cached prepared statement the column list of BEFORE an ALTER TABLE ADD (reproduced without gorm), so the AutoMigrate after one that added a column fails with `duplicate column name` - cause outside /repo",
+		"generated relations: the generated model types have no name (reflect.StructOf), so db.Table(t) cannot be combined with relations (it would name the table of every model of the call); such histories name the table through the NamingStrategy, always give joinForeignKey (there is no type name to derive it from) and relate only to declared types; the names of the join table's columns are taken from gorm's own parse of the model (the statement does not fix them; a `column :c` tag spelled with a blank behind the name keeps the owner's column name in the join table: counted as join_columns_not_named_by_the_join_tags, not judged); the key column of a many2many carries only column / not null / size / comment / index / unique / uniqueIndex tags when it is synthesised, a primary key may receive what the generator adds to any v1 field (index, check); foreign key enforcement is off, has-one / has-many towards generated types, polymorphic and self-referential relations and relations between two generated types are not generated; an index the join table may take over from a key field without refusing rows or failing is not looked for (the statement does not fix the join table's indexes)",
+		"table-naming scopes only call Table(t) or register such a scope; scopes that add conditions, and a scope combined with db.Table(other), are not generated",
 		"a DryRun session (Session{DryRun:true}.AutoMigrate) is outside the statement (it fixes what a migration adds and preserves, not that a dry run leaves the database alone) and is not generated",
 	},
 	Cases: func(tier string) int {
